@@ -114,57 +114,42 @@ Print Assumptions C17_account_metadata_as_of_total.
 
 Theorem C17_filter_metadata_as_of : forall f h1 h2 t a,
   f_acc_hist f = true -> Forall (fun no => fst no <= t) h1 -> Forall (fun no => t < fst no) h2 ->
-  (forall w, w_pit w = Some t -> vol_meta (run f (h1 ++ h2)) w a = acc_meta_cur (run f h1) a) /\
+  (forall w, w_pit w = Some t -> vol_meta f (run f (h1 ++ h2)) w a = acc_meta_cur (run f h1) a) /\
   agg_meta f (run f (h1 ++ h2)) (Some t) a = acc_meta_cur (run f h1) a.
 Proof.
   intros f h1 h2 t a Fh H1 H2. split; [intros w Hw; apply (vol_meta_as_of f h1 h2 t w a Fh H1 H2 Hw) | apply agg_meta_as_of; assumption].
 Qed.
 Print Assumptions C17_filter_metadata_as_of.
 
-(* FULL STATEMENT for the DISABLED feature ("such a read returns the current metadata"), for the three filtered reads:
-       f_acc_hist f = false  ->  vol_meta (run f h) w a = acc_meta_cur (run f h) a   (and the same for agg_meta, ar_meta).
-   It HOLDS for aggregated balances and accounts (the handlers test the feature) and for volumes without a window ... *)
-Theorem C17_filter_history_off_partial : forall f h a,
+(* The DISABLED feature: "such a read returns the current metadata" — for the three filtered reads, any history, any point in
+   time / window / date mode: the metadata column is the current metadata of the account.
+   (Volumes with a PIT or OOT used to read the — then empty — history table without testing the feature: every account carried
+   '{}', `metadata[k]=v` selected nothing and its `$not` everything.  Found by this property's tie, witness alice +10 USD at 1,
+   role=v1 at 2, volumes at 3 filtered by metadata[role]=v1 = [] ; repaired in /repo by f445e43, see known_findings.d/reads.json
+   KF-C17-volumes-metadata-filter-history-off (fixed).  The former theorems C17_volumes_filter_history_off (= []) and
+   C17_volumes_filter_history_off_refuted are gone with the defect.) *)
+Theorem C17_filter_history_off : forall f h a,
   f_acc_hist f = false ->
+  (forall w, vol_meta f (run f h) w a = acc_meta_cur (run f h) a) /\
   (forall pit, agg_meta f (run f h) pit a = acc_meta_cur (run f h) a) /\
-  (forall pit r, In r (read_accounts f (run f h) pit) -> exists x, In x (s_accounts (run f h)) /\ ar_addr r = a_addr x /\ ar_meta r = a_meta x) /\
-  (forall ins, vol_meta (run f h) {| w_pit := None; w_oot := None; w_ins := ins |} a = acc_meta_cur (run f h) a).
+  (forall pit r, In r (read_accounts f (run f h) pit) -> exists x, In x (s_accounts (run f h)) /\ ar_addr r = a_addr x /\ ar_meta r = a_meta x).
 Proof.
-  intros f h a Fh. split; [intros pit; apply agg_meta_history_off; exact Fh|]. split; [|reflexivity].
+  intros f h a Fh. split; [intros w; apply vol_meta_history_off; exact Fh|]. split; [intros pit; apply agg_meta_history_off; exact Fh|].
   intros pit r Hr. unfold read_accounts in Hr. apply in_map_iff in Hr. destruct Hr as (x & <- & Hx). apply filter_In in Hx.
   exists x. cbn [ar_addr ar_meta]. rewrite Fh. repeat split; [exact (proj1 Hx) | destruct pit; reflexivity].
 Qed.
-Print Assumptions C17_filter_history_off_partial.
+Print Assumptions C17_filter_history_off.
 
-(* ... and is REFUTED for volumes with a point in time or a start time: resource_volumes.go joins the history table without
-   testing the feature; with the feature DISABLED nothing fills it, every account carries '{}' ... *)
-Theorem C17_volumes_filter_history_off : forall f h w a,
-  f_acc_hist f = false -> (w_pit w <> None \/ w_oot w <> None) -> vol_meta (run f h) w a = [].
-Proof. exact vol_meta_history_off. Qed.
+(* hence, with the feature DISABLED, volumes filtered by metadata at any window list exactly the rows of the unfiltered listing
+   whose account satisfies the filter on its CURRENT metadata *)
+Theorem C17_volumes_filter_history_off : forall f h w q u v,
+  f_acc_hist f = false -> read_volumes f (run f h) w = Some u -> read_volumes_q f (run f h) w (Some q) 0 = Some v ->
+  forall kv, In kv v <-> In kv u /\ msat q (acc_meta_cur (run f h) (fst (fst kv))) = true.
+Proof.
+  intros f h w q u v Fh Hu Hv kv. rewrite (read_volumes_q_rows _ _ _ _ _ _ Hu Hv kv), (vol_meta_history_off f _ w _ Fh). reflexivity.
+Qed.
 Print Assumptions C17_volumes_filter_history_off.
 
-Local Open Scope string_scope.
-(* ... witness (replayed on the real code: known_findings.d/reads.json): alice receives USD 10 at 1, gets role=v1 at 2; at
-   t = 3 the unfiltered volumes list alice, her current metadata satisfies metadata[role]=v1, the filtered volumes at 3 are
-   empty (without a point in time they list alice; aggregated balances at 3 under the same filter count her) *)
-Theorem C17_volumes_filter_history_off_refuted :
-  exists f h w q a, f_acc_hist f = false /\ w_pit w = Some 3 /\
-    (exists u row, read_volumes f (run f h) w = Some u /\ In row u /\ fst (fst row) = a) /\
-    msat q (acc_meta_cur (run f h) a) = true /\
-    read_volumes_q f (run f h) w (Some q) 0 = Some [] /\
-    read_volumes_q f (run f h) {| w_pit := None; w_oot := None; w_ins := false |} (Some q) 0 = Some [((a, "USD"), (10, 0))] /\
-    read_aggregated_q f (run f h) (Some 3) false q = Some [("USD", 10)].
-Proof.
-  exists {| f_moves := true; f_pcev := true; f_acc_hist := false; f_tx_hist := true; f_hash := true |},
-         [(1, {| o_in := ICreate [{| p_src := "world"; p_dst := "alice"; p_asset := "USD"; p_amt := 10 |}] None "" [] [] false; o_ik := ""; o_dry := false |});
-          (2, {| o_in := ISetMeta (TAcc "alice") [("role", "v1")]; o_ik := ""; o_dry := false |})],
-         {| w_pit := Some 3; w_oot := None; w_ins := false |}, (MfMatch "role" "v1"), "alice".
-  vm_compute. split; [reflexivity|]. split; [reflexivity|]. split.
-  { eexists. exists (("alice", "USD"), (10, 0)). split; [reflexivity|]. split; [right; left; reflexivity | reflexivity]. }
-  repeat split; reflexivity.
-Qed.
-Print Assumptions C17_volumes_filter_history_off_refuted.
-Local Close Scope string_scope.
 
 Local Open Scope string_scope.
 Example C17_example :
@@ -192,4 +177,18 @@ Example C17_filter_example :
   read_volumes_q f (run f h) (at_ 7) (Some (MfExists "role")) 0 = Some [] /\
   read_aggregated_q f (run f h) (Some 5) false (MfNot (MfMatch "role" "v2")) = Some [("USD", -10)] /\
   map ar_addr (read_accounts_q f (run f h) (Some 3) (MfMatch "role" "v1")) = ["alice"].
+Proof. vm_compute. repeat split; reflexivity. Qed.
+
+(* the former witness of the repaired defect (history DISABLED): alice +10 USD at 1, role=v1 at 2; volumes at 3 (and from 0 on)
+   filtered by metadata[role]=v1 list her, the `$not` does not *)
+Example C17_filter_history_off_example :
+  let f := {| f_moves := true; f_pcev := true; f_acc_hist := false; f_tx_hist := true; f_hash := true |} in
+  let mk := fun i => {| o_in := i; o_ik := ""; o_dry := false |} in
+  let h := [(1, mk (ICreate [{| p_src := "world"; p_dst := "alice"; p_asset := "USD"; p_amt := 10 |}] None "" [] [] false));
+            (2, mk (ISetMeta (TAcc "alice") [("role", "v1")]))] in
+  let row := (("alice", "USD"), (10, 0)) in
+  read_volumes_q f (run f h) {| w_pit := Some 3; w_oot := None; w_ins := false |} (Some (MfMatch "role" "v1")) 0 = Some [row] /\
+  read_volumes_q f (run f h) {| w_pit := None; w_oot := Some 0; w_ins := false |} (Some (MfMatch "role" "v1")) 0 = Some [row] /\
+  read_volumes_q f (run f h) {| w_pit := Some 3; w_oot := None; w_ins := false |} (Some (MfNot (MfMatch "role" "v1"))) 0 = Some [(("world", "USD"), (0, 10))] /\
+  read_aggregated_q f (run f h) (Some 3) false (MfMatch "role" "v1") = Some [("USD", 10)].
 Proof. vm_compute. repeat split; reflexivity. Qed.
